@@ -102,8 +102,47 @@ def pairedBatch (j : Json) : R Json := do
   | .ok k => return Json.mkObj [("size", nOut k)]
   | .error e => return errOut e
 
+def parseRank (j : Json) : R Density.ArgRank :=
+  match j with
+  | .str "vec" => .ok .vec
+  | _ => do return .batch (← jNat j)
+
+/-- op `c02.rho_outcome`: result shape / exception class of `rho(v, vp, expand)` by argument rank and dtype
+(`Density.rhoOutcome`). in: v = "vec" | B, vp = "none" | "vec" | B', expand, double (bool) -/
+def rhoOutcome (j : Json) : R Json := do
+  let v ← parseRank (← fld j "v")
+  let vpj ← fld j "vp"
+  let vp ← match vpj with
+    | .str "none" => pure none
+    | _ => do pure (some (← parseRank vpj))
+  let expand ← jBool (← fld j "expand")
+  let dbl ← jBool (← fld j "double")
+  match Density.rhoOutcome v vp expand (if dbl then .double else .other) with
+  | .ok sh => return Json.mkObj [("shape", .arr (sh.toArray.map nOut))]
+  | .error e => return errOut e
+
+/-- op `c02.mixed`: the elements of the mixed-rank forms. in: n,h,a,am,ph, v (n), rows (B×n).
+out: vec_batch[j] = rho v rows[j] (`rho(v, rows, expand=False)`), batch_vec[i] = rho rows[i] v -/
+def mixed (j : Json) : R Json := do
+  let n ← jNat (← fld j "n")
+  let h ← jNat (← fld j "h")
+  let a ← jNat (← fld j "a")
+  let am ← parsePRBM (← fld j "am") n h a
+  let ph ← parsePRBM (← fld j "ph") n h a
+  let rows ← parseRows (← fld j "rows") n
+  let v1 ← jFloatArr (← fld j "v")
+  checkVec v1 n "v"
+  let v := vecFn v1 n
+  let vb := Density.rhoVecBatch am ph v (rowsFn rows)
+  let bv := Density.rhoBatchVec am ph (rowsFn rows) v
+  return Json.mkObj [
+    ("vec_batch_re", fVecOut fun i => (vb i).1), ("vec_batch_im", fVecOut fun i => (vb i).2),
+    ("batch_vec_re", fVecOut fun i => (bv i).1), ("batch_vec_im", fVecOut fun i => (bv i).2)]
+
 def handle (op : String) (j : Json) : Option (R Json) :=
   match op with
+  | "c02.rho_outcome" => some (rhoOutcome j)
+  | "c02.mixed" => some (mixed j)
   | "c02.paired_batch" => some (pairedBatch j)
   | "c02.eval" => some (eval j)
   | "c02.full" => some (full j)
